@@ -32,6 +32,7 @@ def check(run, cases=None):
         else:
             e, v1, v2 = fresh
         live[fk] = (e, v1, v2)
+        v1.fixed, v2.fixed = [(False, False), (True, False), (False, True), (True, True)][n % 4]      # flags matter to the optimizer only
         key = dict(fam=c['fam'], k=c['k'], check='jacobian', reused=reuse)
         try:
             if reuse:
